@@ -213,6 +213,47 @@ def run(prog: Program, res: Result) -> None:
                             f"{name}.decode applies the non-idempotent correct() to an already corrected value: the decoded "
                             f"arrangement is not the corrected index order"))
 
+    # ------------------------------------------------------------------ R4 the composite's bounds are its children's bounds
+    dm = vfs["DiscreteMultiVariable"]
+    gbm = dm.methods["get_bounds"]
+    rv = _ret(gbm)
+    verdict, why_b = "undecided", ""
+    if isinstance(rv, ast.Tuple) and len(rv.elts) == 2:
+        lo_e, hi_e = [origin(gbm.node, x) if isinstance(x, ast.Name) else x for x in rv.elts]
+
+        def from_children(e, which):
+            """[lb for lb, _ in bounds] with bounds = [v.get_bounds() for v in self._children]"""
+            if not (isinstance(e, ast.ListComp) and len(e.generators) == 1 and not e.generators[0].ifs):
+                return False
+            g = e.generators[0]
+            src = origin(gbm.node, g.iter) if isinstance(g.iter, ast.Name) else g.iter
+            if isinstance(src, ast.ListComp) and len(src.generators) == 1 and dotted(src.generators[0].iter) == "self._children" \
+                    and isinstance(src.elt, ast.Call) and isinstance(src.elt.func, ast.Attribute) and src.elt.func.attr == "get_bounds" \
+                    and isinstance(g.target, ast.Tuple) and len(g.target.elts) == 2 and isinstance(e.elt, ast.Name):
+                return isinstance(g.target.elts[which], ast.Name) and g.target.elts[which].id == e.elt.id
+            if dotted(g.iter) == "self._children" and isinstance(e.elt, ast.Subscript) and isinstance(e.elt.value, ast.Call) \
+                    and isinstance(e.elt.value.func, ast.Attribute) and e.elt.value.func.attr == "get_bounds" \
+                    and isinstance(e.elt.slice, ast.Constant) and e.elt.slice.value == which:
+                return True
+            return False
+        if from_children(lo_e, 0) and from_children(hi_e, 1):
+            verdict = "ok"
+        elif isinstance(hi_e, ast.ListComp) and len(hi_e.generators) == 1 and dotted(hi_e.generators[0].iter) == "self.choices" \
+                and isinstance(hi_e.generators[0].target, ast.Name):
+            c_ = hi_e.generators[0].target.id
+            if norm(hi_e.elt) == f"len({c_}) - 1":
+                verdict = "ok"
+            elif norm(hi_e.elt).startswith(f"len({c_})"):
+                verdict, why_b = "bad", (f"the upper bound of child k is `{norm(hi_e.elt)}`; the child (a DiscreteVariable over choices[k]) "
+                                         f"reports len(choices[k]) - 1: the composite's upper corner lies outside its own children's domain")
+    if verdict == "ok":
+        good("DiscreteMultiVariable.get_bounds = its children's bounds", "DMV.get_bounds")
+    elif verdict == "bad":
+        bad("R4-bounds-of-children", gbm, "DiscreteMultiVariable", f"DiscreteMultiVariable.get_bounds: {why_b}", "get_bounds")
+    else:
+        res.errors.append(f"{gbm.loc()} DiscreteMultiVariable.get_bounds: `{norm(rv, 70) if rv is not None else None}` is not recognised "
+                          f"as the children's bounds (undecided)")
+
     # ------------------------------------------------------------------ R4 multi kinds
     spec_children = {
         "ContinuousMultiVariable": ("ContinuousVariable", "lower_bounds"),
